@@ -33,6 +33,8 @@ type Contract struct {
 	Fresh   []string // result names that are freshly allocated objects
 	Foreign []string // result names that are not objects allocated by the calling function (A-STORAGE)
 	Inline  bool     // callers inline the body instead of using the contract
+	Modular []string // callees (contract keys) that THIS function applies by contract although they are marked inline
+	UsedModular bool // named in some "modular" directive: its frame is checked like that of a non-inline contract
 	Props   []string
 	File    string
 	Line    int
@@ -117,6 +119,15 @@ func loadSpecs(repoDir, libDir string) (*Specs, error) {
 		}
 		sp.Files = append(sp.Files, f)
 	}
+	for _, c := range sp.Contracts {
+		for _, m := range c.Modular {
+			if callee, ok := sp.Contracts[m]; ok {
+				callee.UsedModular = true
+			} else {
+				return nil, fmt.Errorf("%s: modular %s: no such contract", c.Key, m)
+			}
+		}
+	}
 	return sp, nil
 }
 
@@ -151,7 +162,7 @@ func (sp *Specs) parseFile(path string, goFile bool) error {
 	}
 	// join continuation lines: a line whose first word is not a keyword continues the previous one
 	keywords := map[string]bool{"onalloc": true, "func": true, "lib": true, "pure": true, "abstract": true, "ghost": true, "requires": true, "ensures": true,
-		"loop": true, "assigns": true, "fresh": true, "foreign": true, "names": true, "inline": true, "property": true, "assume": true, "canary": true, "cover": true, "effectfree": true, "enter": true, "leave": true, "writes": true}
+		"loop": true, "assigns": true, "fresh": true, "foreign": true, "names": true, "inline": true, "modular": true, "property": true, "assume": true, "canary": true, "cover": true, "effectfree": true, "enter": true, "leave": true, "writes": true}
 	var joined []line
 	for _, l := range lines {
 		w := strings.Fields(l.s)[0]
@@ -278,6 +289,8 @@ func (sp *Specs) parseFile(path string, goFile bool) error {
 				}
 			case "inline":
 				cur.Inline = true
+			case "modular":
+				cur.Modular = append(cur.Modular, strings.TrimSpace(rest))
 			case "effectfree":
 				cur.Pure = true
 			case "assume":
